@@ -391,12 +391,23 @@ fn judge(inputs: &[(String, Vec<u8>)], compacted: bool, out: &mut CaseOut) -> Ju
                     replay: json!({"engine":"robust","property":"C16","family":fam,"query_b64_prefix": String::from_utf8_lossy(&inp[..inp.len().min(2000)])}),
                 });
             } else if ms > bound_ms {
-                out.violations.push(Violation {
-                    signature: format!("C16|runs-past-timeout|{famk}"),
-                    summary: format!("with soft_timeout_ms = {SOFT_TIMEOUT_MS} the call returned after {ms} ms (bound {bound_ms} ms)"),
-                    detail: json!({"family": fam, "query": String::from_utf8_lossy(&inp[..inp.len().min(600)]), "elapsed_ms": ms as u64}),
-                    replay: json!({"engine":"robust","property":"C16","family":fam}),
-                });
+                // measured inside a batch on a machine that may be busy: only an input that is past
+                // the bound again when it runs alone counts
+                let p1 = dir.path.join("single-slow");
+                write_batch(&p1, &[inp.clone()]);
+                let alone = run_worker(&["C16-worker".into(), p1.to_string_lossy().to_string(), if compacted { "1".into() } else { "0".into() }], Duration::from_millis(bound_ms as u64 + 5000), Some(16 << 30), &[]);
+                let ms2: Option<u128> = alone.lines.iter().filter_map(|l| l.splitn(4, ' ').nth(2).and_then(|x| x.parse().ok())).next_back();
+                let again = matches!(alone.exit, Exit::Timeout) || ms2.map(|m| m > bound_ms).unwrap_or(false);
+                if again {
+                    out.violations.push(Violation {
+                        signature: format!("C16|runs-past-timeout|{}", sig_family(fam)),
+                        summary: format!("with soft_timeout_ms = {SOFT_TIMEOUT_MS} the call returned after {ms} ms in its batch and after {} alone (bound {bound_ms} ms)", ms2.map(|m| format!("{m} ms")).unwrap_or_else(|| "more than the watchdog".into())),
+                        detail: json!({"family": fam, "query": String::from_utf8_lossy(&inp[..inp.len().min(600)]), "elapsed_ms": ms as u64}),
+                        replay: json!({"engine":"robust","property":"C16","family":fam}),
+                    });
+                } else {
+                    out.inconclusive("slow-in-batch-but-within-the-bound-alone");
+                }
             }
         }
         if matches!(res.exit, Exit::Ok) && done >= n_left {
